@@ -5,6 +5,14 @@
 //           err
 //           panic <msg>                               (from catch_unwind in main_loop)
 //
+// view variant:  vw <steps> <prehex> <sufhex> <case as above>
+//   the bytes <prehex> ++ <datagram> ++ <sufhex> are ONE allocation (a capture buffer); <steps>
+//   (comma-separated, applied in order, each to the result of the previous one) restrict it to a view:
+//     R<start>:<size>  RestrictView::new(start, size)      F<start>  RestrictViewFrom::new(start)
+//   PacketP then runs on the resulting view exactly as on a plain buffer; <cursor> is the cursor of the
+//   view.  The steps are meant to select the window <datagram>; the harness checks that the view it
+//   obtained shows exactly those bytes (`view-mismatch` otherwise; `view-error` if a step is refused).
+//
 // Observation of the returned value.  `Packet`, `Header`, `SubMessage`… keep their fields private
 // and expose no accessor for version, vendor, flags or payload; what they do expose is
 // `#[derive(Debug, PartialEq)]` and public constructors.  So the field values are read off the
@@ -14,6 +22,7 @@
 // (`msgs().len()`, `SubMessage::kind()`, `hdr()`), they are cross-checked as well.  If any of this
 // fails the line is `ok <cursor> unobservable …`, which the oracle rejects.
 use parsley_rust::pcore::parsebuffer::{ParseBuffer, ParseBufferT, ParsleyParser};
+use parsley_rust::pcore::transforms::{BufferTransformT, RestrictView, RestrictViewFrom};
 use parsley_rust::rtps_lib::rtps_packet::{Packet, PacketP};
 use parsley_rust::rtps_lib::rtps_prim::{
     GuidPrefix, Header, ProtocolVersion, SubMessage, SubMessageHeader, VendorId,
@@ -157,13 +166,59 @@ fn show(p: &Packet) -> String {
     s
 }
 
+// the view selected by <steps> in pre ++ window ++ suf
+fn view_of(steps: &str, pre: &[u8], window: &[u8], suf: &[u8]) -> Result<ParseBuffer, &'static str> {
+    let mut all = pre.to_vec();
+    all.extend_from_slice(window);
+    all.extend_from_slice(suf);
+    let mut pb = ParseBuffer::new(all);
+    for st in steps.split(',') {
+        let r = if let Some(t) = st.strip_prefix('R') {
+            let p: Vec<&str> = t.split(':').collect();
+            if p.len() != 2 {
+                return Err("bad-case")
+            }
+            match (p[0].parse::<usize>(), p[1].parse::<usize>()) {
+                (Ok(a), Ok(b)) => RestrictView::new(a, b).transform(&pb),
+                _ => return Err("bad-case"),
+            }
+        } else if let Some(t) = st.strip_prefix('F') {
+            match t.parse::<usize>() {
+                Ok(a) => RestrictViewFrom::new(a).transform(&pb),
+                _ => return Err("bad-case"),
+            }
+        } else {
+            return Err("bad-case")
+        };
+        pb = match r {
+            Ok(v) => v,
+            Err(_) => return Err("view-error"),
+        };
+    }
+    if pb.get_cursor() != 0 || pb.size() != window.len() || pb.remaining() != window.len() || pb.buf() != window {
+        return Err("view-mismatch")
+    }
+    Ok(pb)
+}
+
 pub fn run(line: &str) -> String {
     let w: Vec<&str> = line.split_whitespace().collect();
+    if !w.is_empty() && w[0] == "vw" {
+        if w.len() < 6 || (w[4] != "raw" && w[4] != "enc") {
+            return "bad-case".to_string()
+        }
+        return match view_of(w[1], &unhex(w[2]), &unhex(w[5]), &unhex(w[3])) {
+            Ok(pb) => run_on(pb),
+            Err(e) => e.to_string(),
+        }
+    }
     if w.len() < 2 || (w[0] != "raw" && w[0] != "enc") {
         return "bad-case".to_string()
     }
-    let datagram = unhex(w[1]);
-    let mut pb = ParseBuffer::new(datagram);
+    run_on(ParseBuffer::new(unhex(w[1])))
+}
+
+fn run_on(mut pb: ParseBuffer) -> String {
     let mut pp = PacketP;
     match pp.parse(&mut pb) {
         Ok(p) => format!("ok {} {}", pb.get_cursor(), show(p.val())),
